@@ -440,6 +440,20 @@ def gen_hom(rng, n):
         v = H.rand_letters(rng, alph, H.cap_len(spec, rng.choice([0, 1, 2, 3, 5, 8, 13])) // (2 if H.cap_len(spec, 99) < 99 else 1))
         if rng.random() < 0.3:
             spec["relations"] = [H.join_word(H.rand_letters(rng, alph, rng.randint(1, 4)), spec["simple"])]
+        if rng.random() < 0.15:
+            # both letters of a pair assigned with compute_inverse=False to unrelated matrices: 'A' is NOT the inverse
+            # of 'a'; words in which they are adjacent must still be the plain product
+            names = sorted({h["g"].lower() for h in spec["hist"]})
+            spec["hist"] = [{"g": x, "m": H.enc(H.gen_matrix(rng, spec["n"], "Q" if spec["ring"] != "Z" else "Z")), "inv": False}
+                            for g in names for x in (g, H.swapcase(g))]
+            if spec["ring"] == "C":
+                spec["ring"] = "Q"
+            alph = [h["g"] for h in spec["hist"]]
+            g = rng.choice(names)
+            u = H.rand_letters(rng, alph, rng.randint(0, 3)) + [g]
+            v = [H.swapcase(g)] + H.rand_letters(rng, alph, rng.randint(0, 3))
+            yield {"spec": spec, "u": u, "v": v, "cplx": False, "phase": [1, 1], "noninv": True}
+            continue
         yield {"spec": spec, "u": u, "v": v, "cplx": spec["ring"] == "Q" and rng.random() < 0.4,
                "phase": [rng.randint(-3, 3), rng.randint(1, 3)]}
 
@@ -470,6 +484,18 @@ def run_hom(inp):
         worst[k] = max(worst.get(k, 0.0), float(np.max(np.abs(np.asarray(x, dtype=complex) - np.asarray(y, dtype=complex)))) / (1 + bound))
     upd("concat", rep[j(u + v)], rep[j(u)] @ rep[j(v)], b)
     upd("empty", rep[j([])], np.eye(n), 1.0)
+    if inp.get("noninv"):
+        # no letter is the inverse of another here: only the product law, against the explicit product of the stored matrices
+        mats = {h["g"]: H.tonp_h(h, inp["spec"]["ring"]).astype(float) for h in inp["spec"]["hist"]}
+        ref = np.eye(n)
+        for x in u + v:
+            ref = ref @ mats[x]
+        upd("product", rep[j(u + v)], ref, b)
+        upd("elements", rep.elements([j(u + v)])[0], ref, b)
+        d = rep.conjugate(np.eye(n) + np.triu(np.ones((n, n)), 1))
+        C = np.eye(n) + np.triu(np.ones((n, n)), 1)
+        upd("derived product", d[j(u + v)], np.linalg.inv(C) @ ref @ C, b * 10 * n * n)
+        return {"worst": worst, "reduced_len": len(u + v), "rels_ok": True}
     for g in H.spec_names(inp["spec"]):
         G = H.swapcase(g)
         bb = H.norm_bound(rep, [g, G])
